@@ -6,8 +6,12 @@ from checks import stunlib as S
 
 MODULE = "Nice.Props.C04"
 THEOREMS = [f"Nice.Props.C04.{t}" for t in (
-    "C04_success_needs_integrity", "C04_success_needs_fingerprint", "C04_response_needs_outstanding",
-    "C04_response_at_most_once", "C04_finish_then_validate_partial", "crc32_table_correct")]
+    "C04_success_needs_integrity", "C04_key_provenance", "C04_success_needs_fingerprint",
+    "C04_response_needs_outstanding", "C04_response_at_most_once", "crc32_table_correct",
+    "validate_stages", "validate_frame")]
+# not proved in Lean: C04_finish_then_validate (every message the library finishes with a key validates
+# under it at a peer agent of the same compatibility) — decided by the tie only: the `valm` right after
+# every `fin <key>` in the library-built stream, model and implementation, plus finish_validate_oracle
 TRUSTED = [
     "Lean 4 kernel; axioms allowed: propext, Classical.choice, Quot.sound (audited by #print axioms on every run)",
     "hand-written model Nice/Model/Stun/Agent.lean of stun/stunagent.c + stunhmac.c (MAC framing, priv_trim_var), "
